@@ -355,7 +355,7 @@ def run_shard(spec, ctx):
         fails = judge_pair(prog, variant)
         ctx.case(key, crossed > 0 and not same_text, [f"variant-{prog['meta']['variant']}", "crossed-use" if crossed else "no-use-crossed"]
                  + [f"mode-{m['mode']}" for m in moves.values()][:1],
-                 sample={"original": progcheck.brief_texts(t1, 400), "variant": progcheck.brief_texts(t2, 400)} if ctx.evaluations % 70 == 3 else None, evaluations=2)
+                 sample={"original": progcheck.brief_texts(t1, 400), "variant": progcheck.brief_texts(t2, 400)} if ctx.evaluations % 70 == 2 or not ctx.samples else None, evaluations=2)
         if fails:
             return (fails[0][0], fails[0][1], {"kind": "pair", "a": progcheck.case_of(prog), "b": progcheck.case_of(variant)})
         return None
